@@ -48,14 +48,20 @@ def specStep (cap : Nat) (l : List α) : Op α → List α × Out α
   | .last => (l, .val (l.getLast?.getD default))
   | .peek n => (l, .val (if l.length > n then l.getD (l.length - n - 1) default else default))
   | .clear => ([], .unit)
-  | .clearUntil h => (l.take h, .val (l.getLast?.getD default))
+  | .clearUntil h => (l.take (min h l.length), .val (l.getLast?.getD default))
   | .contents => (l, .vals l)
   | .len => (l, .num l.length)
 
-/-- The property only speaks about truncation to a height at or below the current one. -/
-def Guard (l : List α) : Op α → Prop
-  | .clearUntil h => h ≤ l.length
-  | _ => True
+/-- The property's sentence only speaks about truncation to a height at or below the current
+    one; the repaired `clear_until` only ever truncates (to `min h height`), so the refinement
+    below holds for **every** `h` and no guard on the operation sequence is needed any more.
+    (`l.take (min h l.length) = l.take h`: see `spec_clearUntil_eq_take`.) -/
+theorem spec_clearUntil_eq_take (cap : Nat) (l : List α) (h : Nat) :
+    (specStep cap l (.clearUntil h)).1 = l.take h := by
+  simp only [specStep]
+  by_cases hh : h ≤ l.length
+  · rw [Nat.min_eq_left hh]
+  · rw [Nat.min_eq_right (by omega), List.take_length, List.take_of_length_le (by omega)]
 
 /-! ## The model's step function (composition of the functions of `CaoModel/Stack.lean`) -/
 
@@ -139,7 +145,7 @@ private theorem push_full (s : VStack α) (v : α) (h : ¬ s.count + 1 < s.data.
 
 /-! ## one-step refinement -/
 
-theorem step_refines (s : VStack α) (op : Op α) (hI : Inv s) (hG : Guard (abs s) op) :
+theorem step_refines (s : VStack α) (op : Op α) (hI : Inv s) :
     (modelStep s op).2 = (specStep s.data.length (abs s) op).2 ∧
     abs (modelStep s op).1 = (specStep s.data.length (abs s) op).1 ∧
     Inv (modelStep s op).1 ∧ (modelStep s op).1.data.length = s.data.length := by
@@ -263,7 +269,6 @@ theorem step_refines (s : VStack α) (op : Op α) (hI : Inv s) (hG : Guard (abs 
     refine ⟨rfl, by simp [modelStep, specStep, VStack.clear, abs], ?_, by simp [modelStep, VStack.clear]⟩
     simp only [modelStep, VStack.clear, Inv, List.length_set]; omega
   | clearUntil h =>
-    have hG' : h ≤ s.count := by simpa [Guard, hlen] using hG
     refine ⟨?_, ?_, ?_, rfl⟩
     · simp only [modelStep, specStep, VStack.clearUntil, VStack.last]
       by_cases h0 : s.count > 0
@@ -271,9 +276,10 @@ theorem step_refines (s : VStack α) (op : Op α) (hI : Inv s) (hG : Guard (abs 
         rw [getLast?_take _ _ h0 (by omega)]; rfl
       · have : s.count = 0 := by omega
         simp [abs, this]
-    · simp only [modelStep, specStep, VStack.clearUntil, abs, List.take_take]
-      congr 1; omega
-    · simp only [modelStep, VStack.clearUntil, Inv]; omega
+    · simp only [modelStep, specStep, VStack.clearUntil, hlen]
+      simp only [abs, List.take_take]
+      congr 1; split <;> omega
+    · simp only [modelStep, VStack.clearUntil, Inv]; split <;> omega
   | contents => exact ⟨rfl, rfl, hI, rfl⟩
   | len =>
     refine ⟨?_, rfl, hI, rfl⟩
@@ -289,45 +295,38 @@ def runSpec (cap : Nat) (l : List α) : List (Op α) → List (Out α)
   | [] => []
   | op :: ops => let (l', o) := specStep cap l op; o :: runSpec cap l' ops
 
-/-- every `clear_until` of the run truncates to a height at or below the current one -/
-def Guarded (cap : Nat) (l : List α) : List (Op α) → Prop
-  | [] => True
-  | op :: ops => Guard l op ∧ Guarded cap (specStep cap l op).1 ops
-
-theorem run_refines (s : VStack α) (ops : List (Op α)) (hI : Inv s)
-    (hG : Guarded s.data.length (abs s) ops) :
+theorem run_refines (s : VStack α) (ops : List (Op α)) (hI : Inv s) :
     runModel s ops = runSpec s.data.length (abs s) ops := by
   induction ops generalizing s with
   | nil => rfl
   | cons op ops ih =>
-    obtain ⟨h1, h2, h3, h4⟩ := step_refines s op hI hG.1
+    obtain ⟨h1, h2, h3, h4⟩ := step_refines s op hI
     simp only [runModel, runSpec]
     rw [h1]
     congr 1
-    have := ih (modelStep s op).1 h3 (by rw [h4, h2]; exact hG.2)
+    have := ih (modelStep s op).1 h3
     rw [this, h4, h2]
 
-/-- **C14 (value stack)**: for every capacity `≥ 1` and every guarded operation sequence the
+/-- **C14 (value stack)**: for every capacity `≥ 1` and every operation sequence (every
+    `clear_until h`, also with `h` above the height: it truncates to `min h height`) the
     outputs of the code-shaped model equal those of the `List`-based bounded stack. -/
-theorem vs_refines (cap : Nat) (hcap : 1 ≤ cap) (ops : List (Op α))
-    (hG : Guarded cap ([] : List α) ops) :
+theorem vs_refines (cap : Nat) (hcap : 1 ≤ cap) (ops : List (Op α)) :
     runModel (VStack.new cap : VStack α) ops = runSpec cap [] ops := by
   have hI : Inv (VStack.new cap : VStack α) := by simp [Inv, VStack.new]; omega
   have hl : (VStack.new cap : VStack α).data.length = cap := by simp [VStack.new]
   have ha : abs (VStack.new cap : VStack α) = [] := by simp [abs, VStack.new]
-  have := run_refines (VStack.new cap : VStack α) ops hI (by rw [hl, ha]; exact hG)
+  have := run_refines (VStack.new cap : VStack α) ops hI
   rw [this, hl, ha]
 
 /-- the height never exceeds `cap - 1`, for every reachable state -/
-theorem vs_bounded (s : VStack α) (ops : List (Op α)) (hI : Inv s)
-    (hG : Guarded s.data.length (abs s) ops) :
+theorem vs_bounded (s : VStack α) (ops : List (Op α)) (hI : Inv s) :
     ∀ s', s' = ops.foldl (fun s op => (modelStep s op).1) s → s'.count < s'.data.length := by
   induction ops generalizing s with
   | nil => intro s' h; subst h; exact hI
   | cons op ops ih =>
     intro s' h
-    obtain ⟨_, h2, h3, h4⟩ := step_refines s op hI hG.1
-    exact ih (modelStep s op).1 h3 (by rw [h4, h2]; exact hG.2) s' h
+    obtain ⟨_, h2, h3, h4⟩ := step_refines s op hI
+    exact ih (modelStep s op).1 h3 s' h
 
 /-- Spec-level sanity: pushes are returned in reverse order by pops. -/
 theorem spec_lifo (cap : Nat) (l : List α) (v : α) (h : l.length + 2 ≤ cap) :
@@ -341,10 +340,20 @@ theorem old_pop_exposes_stale_slot :
     let s2 := (s1.popN 1).1
     (s2.popOld).2 = 42 ∧ (s2.pop).2 = 0 := by decide
 
-/-- Non-vacuity: a concrete non-trivial guarded run satisfies the hypotheses of `vs_refines`. -/
-example : Guarded 3 ([] : List Nat)
-    [.push 1, .push 2, .push 3, .popN 1, .clearUntil 1, .pop, .pop, .set 0 9, .contents] := by
-  simp [Guarded, Guard, specStep, specPush, specPopN, specPop]
+/-- `clear_until` never raises the height (the repaired defect): whatever the index. -/
+theorem clearUntil_count_le (s : VStack α) (h : Nat) :
+    (s.clearUntil h).1.count ≤ s.count ∧ (s.clearUntil h).1.count ≤ h ∧
+    (s.clearUntil h).1.count = min h s.count := by
+  simp only [VStack.clearUntil]; split <;> omega
+
+/-- Non-vacuity / regression record: a concrete run with a `clear_until` **above** the height
+    (`clearUntil 5` at height 2: the stack is unchanged, nothing stale becomes visible) and one
+    below it. -/
+example : runModel (VStack.new 4 : VStack Nat)
+    [.push 1, .push 2, .push 3, .popN 1, .clearUntil 5, .contents, .clearUntil 1, .contents,
+     .pop, .pop, .set 0 9, .contents] =
+    [.unit, .unit, .unit, .vals [3], .val 2, .vals [1, 2], .val 2, .vals [1],
+     .val 1, .val 0, .val 0, .vals [9]] := by rfl
 
 /-! ## bounded stack: LIFO + every element dropped exactly once -/
 
